@@ -22,7 +22,7 @@ POINT_RES = ((3, 1.0), (3, 0.5))
 
 
 class PointSetup:
-    def __init__(self):
+    def __init__(self, shift_as=None):
         self.al = symarray('al', ())
         self.be = symarray('b', (3,))
         self.ga = symarray('g', (3, 3), symmetric=True)
@@ -30,6 +30,12 @@ class PointSetup:
         gv = [[self.ga[i, j, 0, 0, 0].t for j in range(3)] for i in range(3)]
         self.pre = oracle.spd_preconditions(gv) + [tm.lt(tm.ZERO, self.al[0, 0, 0].t)]
         inputs = dict(alpha=self.al, betaup3=self.be, gammadown3=self.ga, Kdown3=self.K)
+        if shift_as is not None:
+            # the shift supplied through ONE Cartesian component only (the other two keep their zero default)
+            ax = 'xyz'.index(shift_as[-1])
+            del inputs['betaup3']
+            inputs[shift_as] = self.be[ax]
+            self.shift_axis = ax
         self.run = JetRun(3, inputs, self.pre, fdkind='unint', resolutions=POINT_RES, fd_order=2)
 
     def sampler(self):
@@ -190,6 +196,30 @@ def build(tier, ctx_metric=None, ctx_algebra=None):
                 want = oracle.perm_sign(p) * al * sg if len(set(p)) == 4 else 0
                 P2(f'levicivita_down4{list(p)}', e4[p], want, 'levicivita_down4 == alpha sqrt(gamma) [abcd]')
         blocks.append(dict(name='curvature-algebra', setup=S2, run=S2.run, obs=obs2, ctx=c2))
+
+        # 3+1 -> 4D embedding helper requested FIRST on an instance whose shift comes through a single component
+        for comp in ('betax', 'betay', 'betaz'):
+            S5 = PointSetup(shift_as=comp)
+            c5 = Ctx(pre=S5.pre, fork=False)
+            obs5 = []
+            with use_ctx(c5):
+                rel = S5.run.symbolic_rel()
+                K5 = gr.ungrid(S5.K)
+                bcomp = S5.be[S5.shift_axis, 0, 0, 0]
+                bvec = [bcomp if i == S5.shift_axis else 0 for i in range(3)]
+                K4 = gr.ungrid(rel.s_to_st(S5.K))
+                want = oracle.arr((4, 4))
+                want[0, 0] = sum(bvec[i] * bvec[j] * K5[i, j] for i in range(3) for j in range(3))
+                for k in range(3):
+                    want[0, k + 1] = want[k + 1, 0] = sum(bvec[i] * K5[i, k] for i in range(3))
+                    for l in range(3):
+                        want[k + 1, l + 1] = K5[k, l]
+                for a_ in range(4):
+                    for b_ in range(a_, 4):
+                        obs5.append(Ob(f's_to_st(Kdown3)[{a_},{b_}] shift given as {comp} only', K4[a_, b_], want[a_, b_], S5.pre,
+                                       group='s_to_st first request, shift through one component',
+                                       get=lambda r, a_=a_, b_=b_: r.s_to_st(r['Kdown3'])[a_, b_], meta=dict(fresh_rel=True)))
+            blocks.append(dict(name=f's_to_st({comp})', setup=S5, run=S5.run, obs=obs5, ctx=c5))
 
         # conformal quantities (root atom psi = det^(1/12)): designed metric values, rest free
         S3 = PointSetup()
